@@ -195,6 +195,9 @@ func (s *StorageClient) Get(key string) (*mc.Item, error) {
 func (s *StorageClient) GetMulti(keys []string) (map[string]*mc.Item, error) {
 	ret := make(map[string]*mc.Item)
 	for _, key := range keys {
+		if _, ok := ret[key]; ok {
+			continue // a repeated key: its item would be replaced in the map and never released
+		}
 		item, _ := s.Get(key)
 		if item != nil {
 			ret[key] = item
